@@ -7,7 +7,9 @@ tree = sys.argv[1]
 assert os.path.abspath(tree) not in ("/repo",), "refusing to touch /repo"
 SEAMS = [
     ("consensus/cluster.go", "func (n *RaftNode) propose(cmd *command) (interface{}, error) {", "func (n *RaftNode) proposeVerifOrig(cmd *command) (interface{}, error) {"),
-    ("consensus/snapshot.go", "func (n *RaftNode) attemptToFetchSnapshot(lastSeqNum, lastAppliedVersion uint64) (io.ReadCloser, error) {", "func (n *RaftNode) attemptToFetchSnapshotVerifOrig(lastSeqNum, lastAppliedVersion uint64) (io.ReadCloser, error) {"),
+    # the gRPC call of a follower to the leader (inside attemptToFetchSnapshot): the call expression is
+    # redirected, so the seam does not depend on the signature of the enclosing function
+    ("consensus/snapshot.go", "client.FetchSnapshot(context.Background(), ", "verifFetchRPC(n, client, context.Background(), "),
 ]
 which = sys.argv[2] if len(sys.argv) > 2 else "consensus"
 if which == "consensus":
@@ -18,7 +20,7 @@ if which == "consensus":
             print("INFRA: seam: %r not found exactly once in %s" % (old, path))
             sys.exit(2)
         open(fp, "w").write(src.replace(old, new))
-    print("seams: %d definitions renamed" % len(SEAMS))
+    print("seams: %d sites redirected" % len(SEAMS))
     # durable writes of the raft log store get a boundary hook before and after (crash-point enumeration)
     fp = os.path.join(tree, "consensus/raft_log.go")
     src = open(fp).read()
